@@ -131,7 +131,7 @@ func (in *interp) newDraw(name, kind string, w uint8, k types.BasicKind) value {
 	seq := p.drawSeq[name]
 	p.drawSeq[name] = seq + 1
 	vn := fmt.Sprintf("%s#%d", name, seq)
-	t := in.tt.Var(vn, w)
+	t := in.tt.Var(fmt.Sprintf("%s/%d", vn, w), w)
 	p.atoms = append(p.atoms, t)
 	p.draws = append(p.draws, draw{Name: vn, Kind: kind, term: t})
 	return Sym{t, k}
@@ -214,7 +214,7 @@ func init() {
 		seq := p.drawSeq[nm]
 		p.drawSeq[nm] = seq + 1
 		vn := fmt.Sprintf("%s#%d", nm, seq)
-		raw := tt.Var(vn, w)
+		raw := tt.Var(fmt.Sprintf("%s/%d", vn, w), w)
 		p.atoms = append(p.atoms, raw)
 		t := tt.Zext(raw, 64)
 		p.draws = append(p.draws, draw{Name: vn, Kind: "int", term: t})
@@ -1008,6 +1008,26 @@ func (in *interp) newError(msg value) value {
 // digit variables constrained by x = Σ d_i·10^i; the digit count is chosen by
 // a fork on the ranges [10^(k-1), 10^k).
 func (in *interp) decimalModel(s Sym) []value {
+	// the digits of one term are modelled once per path, so that formatting
+	// the same value twice yields syntactically identical bytes
+	key := decKey{s.T, kindSigned(s.K)}
+	if d, ok := in.path.decCache[key]; ok {
+		return append([]value(nil), d...)
+	}
+	d := in.decimalModel1(s)
+	if in.path.decCache == nil {
+		in.path.decCache = map[decKey][]value{}
+	}
+	in.path.decCache[key] = d
+	return append([]value(nil), d...)
+}
+
+type decKey struct {
+	t      *Term
+	signed bool
+}
+
+func (in *interp) decimalModel1(s Sym) []value {
 	tt := in.tt
 	x := s.T
 	signed := kindSigned(s.K)
@@ -1039,23 +1059,38 @@ func (in *interp) decimalModel(s Sym) []value {
 		}
 		p *= 10
 	}
-	digits := make([]*Term, nd)
-	sum := tt.Const(64, 0)
-	pow := uint64(1)
-	for i := 0; i < nd; i++ {
-		d := in.freshAtom("dec", 8)
-		digits[i] = d
-		lim := uint64(9)
-		if i == 19 {
-			lim = 1
+	// Within this branch x < 10^nd.  Continue with a fresh variable equal to x
+	// that carries this bound, so that every derived quotient has a tight
+	// syntactic upper bound (overflow checks of a re-parse then fold away).
+	if nd < 20 {
+		p10 := uint64(1)
+		for i := 0; i < nd; i++ {
+			p10 *= 10
 		}
-		in.assumeCond(in.symBool(tt.Cmp(OpUle, d, tt.Const(8, lim))))
-		sum = tt.Bin(OpAdd, sum, tt.Bin(OpMul, tt.Zext(d, 64), tt.Const(64, pow)))
-		pow *= 10
+		in.path.freshSeq++
+		xn := tt.Var(fmt.Sprintf("decx!%d!%d", in.path.freshSeq, nd), 64)
+		xn.umax = p10 - 1
+		in.path.atoms = append(in.path.atoms, xn)
+		in.assumeCond(in.symBool(tt.Cmp(OpEq, xn, x)))
+		x = xn
 	}
-	// no overflow in the sum: bounded because x < 10^nd (asserted by the
-	// digit-count branch) and each partial sum <= 10^nd - 1 < 2^64
-	in.assumeCond(in.symBool(tt.Cmp(OpEq, sum, x)))
+	// digits by chained division: d_0 = x % 10, q_1 = x / 10, d_1 = q_1 % 10 …
+	// (quotient/remainder atoms with defining constraints; a Horner re-parse
+	// of these digits is recomposed to x by the term simplifier)
+	digits := make([]*Term, nd)
+	cur := x
+	for i := 0; i < nd; i++ {
+		if i == nd-1 {
+			digits[i] = cur // < 10 by the digit-count branch
+			break
+		}
+		q, r := tt.UDivRemConst(cur, 10)
+		digits[i] = r
+		cur = q
+	}
+	for i := range digits {
+		digits[i] = tt.Extract(digits[i], 7, 0)
+	}
 	out := []value{}
 	if neg {
 		out = append(out, uint8('-'))
